@@ -147,3 +147,10 @@ impl SenderSession {
         }
     }
 }
+
+#[cfg(feature = "verif-hooks")]
+impl SenderSession {
+    pub(crate) fn verif_toi(&self) -> Option<u128> {
+        self.file.as_ref().map(|f| f.toi)
+    }
+}
